@@ -226,7 +226,7 @@ func (c *Connect) unpackPayload(bufr *bytes.Buffer) error {
 		}
 	}
 	if c.PasswordFlag {
-		c.Password, err = readUTF8String(true, bufr)
+		c.Password, err = readUTF8String(false, bufr) // binary data
 		if err != nil {
 			return err
 		}
